@@ -399,3 +399,420 @@ Proof.
       * destruct (slot_mem c (bkids s p)); [discriminate|]. right. split; [|exact H].
         intros Hin. apply somes_In, slot_mem_In in Hin. congruence.
 Qed.
+
+(* ========================================================================================== *)
+(* 3. the primitive steps on a well-formed state *)
+
+Lemma bcorrupted_false s c : BWF s -> bcorrupted s c = false.
+Proof.
+  intros W. unfold bcorrupted. destruct (bpar s c) as [q|] eqn:E; [|reflexivity].
+  destruct (bw_up s W _ _ E) as [i Hi]. apply slot_In, slot_mem_In in Hi. rewrite Hi. reflexivity.
+Qed.
+
+Lemma kid_not_anc s y p : BWF s -> bpar s y = Some p -> y <> p /\ ~ In y (bancestors s p).
+Proof.
+  intros W E. pose proof W as [_ _ _ _ Hb [r Hr]]. pose proof (Hr _ _ E) as Hlt. split.
+  - intros ->. lia.
+  - intros Hin. apply (banc_rank s r Hr) in Hin. lia.
+Qed.
+
+Lemma detach_par s c x : bpar (bdetach s c) x = bpar s x.
+Proof. unfold bdetach. destruct (bpar s c); reflexivity. Qed.
+Lemma detach_size s c : bsize (bdetach s c) = bsize s.
+Proof. unfold bdetach. destruct (bpar s c); reflexivity. Qed.
+
+Lemma detach_kids s c q : BWF s ->
+  length (bkids (bdetach s c) q) = length (bkids s q)
+  /\ forall j, slot (bkids (bdetach s c) q) j = rm c (slot (bkids s q) j).
+Proof.
+  intros W. pose proof W as [_ Hd _ Ho _ _].
+  assert (Hno : bpar s c <> Some q -> forall j, rm c (slot (bkids s q) j) = slot (bkids s q) j).
+  { intros Hne j. apply rm_absent. intros H. apply Hd in H. congruence. }
+  unfold bdetach. destruct (bpar s c) as [q0|] eqn:E.
+  - cbn [bkids bset_kids]. destruct (Nat.eq_dec q q0) as [->|Hq].
+    + rewrite upd_same. split; [apply clear_slot_length|]. intros j. apply slot_clear, Ho.
+    + rewrite upd_other by exact Hq. split; [reflexivity|]. intros j. symmetry. apply Hno. congruence.
+  - split; [reflexivity|]. intros j. symmetry. apply Hno. discriminate.
+Qed.
+
+Lemma detach_kids_parent s c q : bpar s c = Some q -> bkids (bdetach s c) q = clear_slot c (bkids s q).
+Proof. intros E. unfold bdetach. rewrite E. cbn [bkids bset_kids]. apply upd_same. Qed.
+
+Lemma detach_kids_other s c q : BWF s -> bpar s c <> Some q -> bkids (bdetach s c) q = bkids s q.
+Proof.
+  intros W Hne. destruct (detach_kids s c q W) as [Hl Hs]. apply slot_ext; [exact Hl|].
+  intros j. rewrite Hs. apply rm_absent. intros H. apply (bw_down s W) in H. congruence.
+Qed.
+
+(* relinking p with (some of) its own children *)
+Lemma relinked_local s s' p news : BWF s ->
+  (forall x, In (Some x) news -> In (Some x) (bkids s p)) ->
+  bsize s' = bsize s ->
+  (forall x, bpar s' x = if slot_mem x (bkids s p) && negb (slot_mem x news) then None else bpar s x) ->
+  bkids s' p = news ->
+  (forall q, q <> p -> bkids s' q = bkids s q) ->
+  relinked s s' p news.
+Proof.
+  intros W Hsub Hs Hp Hk Hq. pose proof W as [_ Hd _ _ _ _]. constructor.
+  - exact Hs.
+  - intros x. rewrite Hp. destruct (slot_mem x news) eqn:En.
+    + rewrite Bool.andb_false_r. apply slot_mem_In, Hsub, In_slot in En. destruct En as [i Hi].
+      exact (Hd _ _ _ Hi).
+    + rewrite Bool.andb_true_r. reflexivity.
+  - exact Hk.
+  - intros q Hne. rewrite Hq by exact Hne. reflexivity.
+  - intros q j Hne. rewrite Hq by exact Hne. unfold rmset. destruct (slot (bkids s q) j) as [y|] eqn:E; [|reflexivity].
+    destruct (slot_mem y news) eqn:En; [|reflexivity].
+    apply slot_mem_In, Hsub, In_slot in En. destruct En as [i Hi]. apply Hd in Hi. apply Hd in E. congruence.
+Qed.
+
+Lemma valid_news_local s p news : BWF s -> p < bsize s -> length news = 2 -> once news ->
+  (forall x, In (Some x) news -> In (Some x) (bkids s p)) -> valid_news s p news.
+Proof.
+  intros W Hp Hl Ho Hsub. constructor; try assumption.
+  intros x Hx. apply Hsub, In_slot in Hx. destruct Hx as [i Hi]. apply (bw_down s W) in Hi.
+  destruct (kid_not_anc s x p W Hi) as [H1 H2]. destruct (bw_bound s W _ _ Hi) as [H3 _]. auto.
+Qed.
+
+(* ------------------------------------------------------------------------------------------ *)
+(* c.parent = None *)
+
+Lemma once_In_clear x y l : once l -> In (Some y) (clear_slot x l) <-> In (Some y) l /\ y <> x.
+Proof.
+  intros Ho. split.
+  - intros H. apply In_slot in H. destruct H as [i Hi]. rewrite slot_clear in Hi by exact Ho.
+    apply rm_Some in Hi. destruct Hi as [Hi Hne]. split; [exact (slot_In _ _ _ Hi)|exact Hne].
+  - intros [H Hne]. apply In_slot in H. destruct H as [i Hi]. apply (slot_In _ i).
+    rewrite slot_clear by exact Ho. apply rm_Some. split; assumption.
+Qed.
+
+Lemma orphan_relinked s c q : BWF s -> bpar s c = Some q ->
+  relinked s (bset_par (bdetach s c) c None) q (clear_slot c (bkids s q))
+  /\ valid_news s q (clear_slot c (bkids s q)).
+Proof.
+  intros W E. pose proof W as [Hl Hd Hu Ho Hb _].
+  assert (Hsub : forall x, In (Some x) (clear_slot c (bkids s q)) -> In (Some x) (bkids s q)).
+  { intros x H. apply once_In_clear in H; [tauto|apply Ho]. }
+  split.
+  - apply relinked_local; try assumption.
+    + cbn [bsize bset_par]. apply detach_size.
+    + intros x. cbn [bpar bset_par]. unfold upd. rewrite detach_par.
+      destruct (Nat.eqb_spec x c) as [->|Hne].
+      * destruct (Hu _ _ E) as [i Hi]. apply slot_In in Hi.
+        assert (H1 : slot_mem c (bkids s q) = true) by (apply slot_mem_In; exact Hi).
+        assert (H2 : slot_mem c (clear_slot c (bkids s q)) = false).
+        { apply slot_mem_false. intros H. apply once_In_clear in H; [tauto|apply Ho]. }
+        rewrite H1, H2. reflexivity.
+      * destruct (slot_mem x (bkids s q)) eqn:E1; [|reflexivity].
+        assert (H2 : slot_mem x (clear_slot c (bkids s q)) = true).
+        { apply slot_mem_In, once_In_clear; [apply Ho|]. split; [apply slot_mem_In; exact E1|exact Hne]. }
+        rewrite H2. reflexivity.
+    + cbn [bkids bset_par]. apply detach_kids_parent. exact E.
+    + intros q' Hq'. cbn [bkids bset_par]. apply detach_kids_other; [exact W|congruence].
+  - apply valid_news_local; try assumption.
+    + apply (Hb _ _ E).
+    + rewrite clear_slot_length. apply Hl.
+    + apply once_clear, Ho.
+Qed.
+
+Lemma orphan_root_beq s c : bpar s c = None -> beq (bset_par (bdetach s c) c None) s.
+Proof.
+  intros E. unfold bdetach. rewrite E. split; [reflexivity|]. split; [|reflexivity].
+  intros x. cbn [bpar bset_par]. unfold upd. destruct (Nat.eqb_spec x c) as [->|_]; congruence.
+Qed.
+
+Lemma orphan_BWF s c : BWF s -> BWF (bset_par (bdetach s c) c None).
+Proof.
+  intros W. destruct (bpar s c) as [q|] eqn:E.
+  - destruct (orphan_relinked s c q W E) as [R V]. exact (relink_BWF _ _ _ _ W V R).
+  - apply (BWF_beq s); [exact W|]. apply beq_sym, orphan_root_beq. exact E.
+Qed.
+
+(* ------------------------------------------------------------------------------------------ *)
+(* c.parent = p *)
+
+(* the slot list of p after an accepted `c.parent = p` *)
+Definition sp_news (s : bheap) (c p : id) : list (option id) :=
+  let l1 := bkids (bdetach s c) p in
+  match first_empty l1 with Some i => set_nth i (Some c) l1 | None => l1 end.
+
+Lemma bfull_false s p : bfull s (Some p) = false -> exists i, first_empty (bkids s p) = Some i.
+Proof. unfold bfull. destruct (first_empty (bkids s p)) as [i|]; [eauto|discriminate]. Qed.
+
+Lemma sp_news_slot s c p i : BWF s -> first_empty (bkids (bdetach s c) p) = Some i ->
+  forall j, slot (sp_news s c p) j = if Nat.eqb j i then Some c else rm c (slot (bkids s p) j).
+Proof.
+  intros W E j. unfold sp_news. rewrite E. destruct (first_empty_some _ _ E) as [Hi _].
+  rewrite slot_set_nth. apply Nat.ltb_lt in Hi. rewrite Hi, Bool.andb_true_r.
+  destruct (detach_kids s c p W) as [_ Hs]. rewrite Hs. reflexivity.
+Qed.
+
+Lemma sp_news_In s c p i : BWF s -> first_empty (bkids (bdetach s c) p) = Some i ->
+  forall x, In (Some x) (sp_news s c p) <-> x = c \/ (x <> c /\ In (Some x) (bkids s p)).
+Proof.
+  intros W E x. pose proof (sp_news_slot s c p i W E) as HS.
+  destruct (first_empty_some _ _ E) as [_ [Hnone _]].
+  destruct (detach_kids s c p W) as [_ Hs]. rewrite Hs in Hnone. split.
+  - intros H. apply In_slot in H. destruct H as [j Hj]. rewrite HS in Hj.
+    destruct (Nat.eqb_spec j i) as [Eji|Hne]; [left; congruence|].
+    apply rm_Some in Hj. destruct Hj as [Hj Hx]. right. split; [exact Hx|exact (slot_In _ _ _ Hj)].
+  - intros [->|[Hx H]].
+    + apply (slot_In _ i). rewrite HS, Nat.eqb_refl. reflexivity.
+    + apply In_slot in H. destruct H as [j Hj]. apply (slot_In _ j). rewrite HS.
+      destruct (Nat.eqb_spec j i) as [Eji|Hne].
+      * subst j. rewrite Hj in Hnone. assert (rm c (Some x) = Some x) by (apply rm_Some; auto). congruence.
+      * rewrite Hj. apply rm_Some. auto.
+Qed.
+
+Lemma attach_state s c p i : first_empty (bkids (bdetach s c) p) = Some i ->
+  battach (bdetach s c) c (Some p)
+  = bset_kids (bset_par (bdetach s c) c (Some p)) p (sp_news s c p).
+Proof.
+  intros E. unfold battach, sp_news. cbn [bkids bset_par]. rewrite E. reflexivity.
+Qed.
+
+Lemma attach_relinked s (c p : id) : BWF s -> c < bsize s -> p < bsize s -> p <> c ->
+  ~ In c (bancestors s p) -> bfull (bdetach s c) (Some p) = false ->
+  relinked s (battach (bdetach s c) c (Some p)) p (sp_news s c p) /\ valid_news s p (sp_news s c p).
+Proof.
+  intros W Hc Hp Hpc Hanc Hfull. pose proof W as [Hl Hd Hu Ho Hb _].
+  destruct (bfull_false _ _ Hfull) as [i E]. rewrite (attach_state s c p i E).
+  pose proof (sp_news_slot s c p i W E) as HS. pose proof (sp_news_In s c p i W E) as HM.
+  assert (HMb : forall x, slot_mem x (sp_news s c p) = Nat.eqb x c || slot_mem x (bkids s p)).
+  { intros x. destruct (slot_mem x (sp_news s c p)) eqn:E1.
+    - symmetry. apply slot_mem_In, HM in E1. destruct E1 as [->|[_ H]]; [rewrite Nat.eqb_refl; reflexivity|].
+      apply slot_mem_In in H. rewrite H. apply Bool.orb_true_r.
+    - symmetry. apply orb_false_iff. destruct (Nat.eqb_spec x c) as [->|Hne].
+      + exfalso. apply slot_mem_false in E1. apply E1, HM. left. reflexivity.
+      + split; [reflexivity|]. apply slot_mem_false. intros H. apply slot_mem_false in E1.
+        apply E1, HM. right. auto. }
+  split.
+  - constructor.
+    + cbn [bsize bset_kids bset_par]. apply detach_size.
+    + intros x. cbn [bpar bset_kids bset_par]. unfold upd. rewrite detach_par, HMb.
+      destruct (Nat.eqb_spec x c) as [->|Hne]; [reflexivity|]. cbn [orb].
+      destruct (slot_mem x (bkids s p)) eqn:E1; [|reflexivity].
+      apply slot_mem_In, In_slot in E1. destruct E1 as [j Hj]. exact (Hd _ _ _ Hj).
+    + cbn [bkids bset_kids]. apply upd_same.
+    + intros q Hq. cbn [bkids bset_kids bset_par]. rewrite upd_other by exact Hq. apply detach_kids, W.
+    + intros q j Hq. cbn [bkids bset_kids bset_par]. rewrite upd_other by exact Hq.
+      destruct (detach_kids s c q W) as [_ Hs]. rewrite Hs. unfold rm, rmset.
+      destruct (slot (bkids s q) j) as [y|] eqn:Ey; [|reflexivity]. rewrite HMb, (Nat.eqb_sym y c).
+      destruct (Nat.eqb_spec c y) as [->|Hne]; [reflexivity|]. cbn [orb].
+      destruct (slot_mem y (bkids s p)) eqn:E1; [|reflexivity].
+      apply slot_mem_In, In_slot in E1. destruct E1 as [k Hk]. apply Hd in Hk. apply Hd in Ey. congruence.
+  - constructor.
+    + unfold sp_news. rewrite E, set_nth_length. destruct (detach_kids s c p W) as [Hlen _]. rewrite Hlen. apply Hl.
+    + intros j1 j2 x H1 H2. rewrite HS in H1, H2.
+      destruct (Nat.eqb_spec j1 i) as [->|N1]; destruct (Nat.eqb_spec j2 i) as [->|N2]; try reflexivity.
+      * injection H1 as <-. apply rm_Some in H2. tauto.
+      * injection H2 as <-. apply rm_Some in H1. tauto.
+      * apply rm_Some in H1, H2. exact (Ho p _ _ _ (proj1 H1) (proj1 H2)).
+    + exact Hp.
+    + intros x Hx. apply HM in Hx. destruct Hx as [->|[_ Hx]]; [auto|].
+      apply In_slot in Hx. destruct Hx as [j Hj]. apply Hd in Hj.
+      destruct (kid_not_anc s x p W Hj). destruct (Hb _ _ Hj). auto.
+Qed.
+
+(* ------------------------------------------------------------------------------------------ *)
+(* the except block of the parent setter gives back the state the setter started from *)
+
+Lemma set_nth_restore {A} i (v w : A) l d : i < length l -> nth i l d = v ->
+  set_nth i v (set_nth i w l) = l.
+Proof.
+  revert i. induction l as [|h t IH]; intros i Hi Hv; [cbn in Hi; lia|].
+  destruct i as [|i]; cbn [set_nth nth length] in *; [congruence|]. f_equal. apply IH; [lia|exact Hv].
+Qed.
+
+Lemma restore_clear c l : In (Some c) l -> set_nth (slot_index c l) (Some c) (clear_slot c l) = l.
+Proof.
+  intros H. destruct (slot_index_spec c l H) as [Hlt Hs]. unfold clear_slot.
+  apply (set_nth_restore _ _ _ _ None); assumption.
+Qed.
+
+Lemma clear_filled c i l : ~ In (Some c) l -> i < length l -> slot l i = None ->
+  clear_slot c (set_nth i (Some c) l) = l.
+Proof.
+  intros Hnin Hi Hnone. unfold clear_slot.
+  assert (Hidx : slot_index c (set_nth i (Some c) l) = i).
+  { assert (Hin : In (Some c) (set_nth i (Some c) l)).
+    { apply (slot_In _ i). rewrite slot_set_nth, Nat.eqb_refl. apply Nat.ltb_lt in Hi. rewrite Hi. reflexivity. }
+    destruct (slot_index_spec c _ Hin) as [_ Hs]. rewrite slot_set_nth in Hs.
+    destruct (Nat.eqb_spec (slot_index c (set_nth i (Some c) l)) i) as [E|Hne]; [exact E|].
+    cbn [andb] in Hs. exfalso. apply Hnin. exact (slot_In _ _ _ Hs). }
+  rewrite Hidx. apply (set_nth_restore _ _ _ _ None); assumption.
+Qed.
+
+(* last step of the except block: put c back into its old slot *)
+Lemma restore_beq s st c : BWF s ->
+  bsize st = bsize s -> (forall x, bpar st x = bpar s x) ->
+  (forall x, bkids st x = bkids (bdetach s c) x) ->
+  beq (match bcur_idx s c, bpar s c with
+       | Some i, Some q => bset_kids st q (set_nth i (Some c) (bkids st q))
+       | _, _ => st
+       end) s.
+Proof.
+  intros W Hs Hp Hk. unfold bcur_idx. destruct (bpar s c) as [q|] eqn:E.
+  - split; [exact Hs|]. split; [exact Hp|]. intros x. cbn [bkids bset_kids]. unfold upd.
+    destruct (Nat.eqb_spec x q) as [->|Hne].
+    + rewrite Hk, (detach_kids_parent s c q E). apply restore_clear.
+      destruct (bw_up s W _ _ E) as [i Hi]. exact (slot_In _ _ _ Hi).
+    + rewrite Hk. apply detach_kids_other; [exact W|congruence].
+  - split; [exact Hs|]. split; [exact Hp|]. intros x. rewrite Hk. unfold bdetach. rewrite E. reflexivity.
+Qed.
+
+Lemma parent_rollback_beq s c np : BWF s ->
+  (forall p, np = Some p -> p <> c) ->
+  beq (bparent_rollback (battach (bdetach s c) c np) c (bpar s c) np (bcur_idx s c)) s.
+Proof.
+  intros W Hnp. unfold bparent_rollback.
+  set (st1 := match np with
+              | Some p => if slot_mem c (bkids (battach (bdetach s c) c np) p)
+                          then bset_kids (battach (bdetach s c) c np) p
+                                 (clear_slot c (bkids (battach (bdetach s c) c np) p))
+                          else battach (bdetach s c) c np
+              | None => battach (bdetach s c) c np end).
+  assert (H1 : bsize st1 = bsize s /\ (forall x, bpar st1 x = upd (bpar s) c np x)
+               /\ forall x, bkids st1 x = bkids (bdetach s c) x).
+  { unfold st1. destruct np as [p|].
+    - specialize (Hnp p eq_refl).
+      assert (Hc1 : ~ In (Some c) (bkids (bdetach s c) p)).
+      { intros H. apply In_slot in H. destruct H as [j Hj]. destruct (detach_kids s c p W) as [_ Hs].
+        rewrite Hs in Hj. apply rm_Some in Hj. tauto. }
+      destruct (first_empty (bkids (bdetach s c) p)) as [i|] eqn:E.
+      + rewrite (attach_state s c p i E). cbn [bkids bset_kids bset_par]. rewrite upd_same.
+        destruct (first_empty_some _ _ E) as [Hi [Hnone _]].
+        assert (Hm : slot_mem c (sp_news s c p) = true).
+        { apply slot_mem_In, (sp_news_In s c p i W E). left. reflexivity. }
+        rewrite Hm. cbn [bsize bpar bkids bset_kids bset_par]. split; [apply detach_size|]. split.
+        * intros x. unfold upd. rewrite detach_par. reflexivity.
+        * intros x. unfold upd. destruct (Nat.eqb_spec x p) as [->|Hne]; [|reflexivity].
+          unfold sp_news. rewrite E. apply clear_filled; assumption.
+      + unfold battach. cbn [bkids bset_par]. rewrite E. cbn [bkids bset_par].
+        assert (Hm : slot_mem c (bkids (bdetach s c) p) = false) by (apply slot_mem_false; exact Hc1).
+        rewrite Hm. cbn [bsize bpar bkids bset_par]. split; [apply detach_size|]. split; [|reflexivity].
+        intros x. unfold upd. rewrite detach_par. reflexivity.
+    - unfold battach. cbn [bsize bpar bkids bset_par]. split; [apply detach_size|]. split; [|reflexivity].
+      intros x. unfold upd. rewrite detach_par. reflexivity. }
+  destruct H1 as [Hs [Hp Hk]]. fold st1.
+  change (match bcur_idx s c, bpar s c with
+          | Some i, Some q => bset_kids (bset_par st1 c (bpar s c)) q
+                                (set_nth i (Some c) (bkids (bset_par st1 c (bpar s c)) q))
+          | _, _ => bset_par st1 c (bpar s c) end)
+    with (match bcur_idx s c, bpar s c with
+          | Some i, Some q => bset_kids (bset_par st1 c (bpar s c)) q
+                                (set_nth i (Some c) (bkids (bset_par st1 c (bpar s c)) q))
+          | _, _ => bset_par st1 c (bpar s c) end).
+  apply restore_beq; [exact W|exact Hs| |exact Hk].
+  intros x. cbn [bpar bset_par]. unfold upd at 1. rewrite Hp. unfold upd.
+  destruct (Nat.eqb_spec x c) as [->|_]; reflexivity.
+Qed.
+
+(* ------------------------------------------------------------------------------------------ *)
+(* the parent setter as a whole *)
+
+Lemma loop_false s (c p : id) : bparent_loop s c (Some p) = false -> p <> c /\ ~ In c (bancestors s p).
+Proof.
+  unfold bparent_loop. intros H. apply orb_false_iff in H. destruct H as [H1 H2].
+  apply Nat.eqb_neq in H1. split; [exact H1|]. intros Hin. apply memb_In in Hin. congruence.
+Qed.
+
+Lemma set_parent_sound cfg ft s (c : id) a : BWF s -> c < bsize s -> barg_in_range s a = true ->
+  (snd (bset_parent cfg ft s c a) <> Ok -> beq (fst (bset_parent cfg ft s c a)) s)
+  /\ BWF (fst (bset_parent cfg ft s c a)).
+Proof.
+  intros W Hc Ha.
+  assert (Hrej : forall t o, beq t s -> (snd (t, o) <> Ok -> beq (fst (t, o)) s) /\ BWF (fst (t, o))).
+  { intros t o Hb. cbn [fst snd]. split; [intros _; exact Hb|]. apply (BWF_beq s); [exact W|apply beq_sym, Hb]. }
+  unfold bset_parent. destruct a as [p| |]; cbv zeta.
+  - destruct (bparent_loop s c (Some p)) eqn:EL; [apply Hrej, beq_refl|].
+    destruct (loop_false s c p EL) as [Hpc Hanc].
+    destruct (fault_eqb ft PreFail); [apply Hrej, beq_refl|].
+    rewrite (bcorrupted_false s c W).
+    assert (Hroll := parent_rollback_beq s c (Some p) W ltac:(intros p' [= <-]; exact Hpc)).
+    destruct (bfull (bdetach s c) (Some p)) eqn:EF; [apply Hrej, Hroll|].
+    destruct (fault_eqb ft PostFail); [apply Hrej, Hroll|].
+    cbn [fst snd]. split; [congruence|].
+    cbn [barg_in_range] in Ha. apply Nat.ltb_lt in Ha.
+    destruct (attach_relinked s c p W Hc Ha Hpc Hanc EF) as [R V]. exact (relink_BWF _ _ _ _ W V R).
+  - cbn [bparent_loop bfull].
+    destruct (fault_eqb ft PreFail); [apply Hrej, beq_refl|].
+    rewrite (bcorrupted_false s c W).
+    assert (Hroll := parent_rollback_beq s c None W ltac:(discriminate)).
+    destruct (fault_eqb ft PostFail); [apply Hrej, Hroll|].
+    cbn [fst snd]. split; [congruence|]. unfold battach. apply orphan_BWF, W.
+  - apply Hrej, beq_refl.
+Qed.
+
+(* ------------------------------------------------------------------------------------------ *)
+(* del p.children *)
+
+Lemma orphan_explicit st (c p : id) : bpar st c = Some p ->
+  bsize (borphan st (Some c)) = bsize st
+  /\ (forall x, bpar (borphan st (Some c)) x = upd (bpar st) c None x)
+  /\ (forall q, bkids (borphan st (Some c)) q = upd (bkids st) p (clear_slot c (bkids st p)) q).
+Proof. intros E. unfold borphan, bdetach. rewrite E. repeat split. Qed.
+
+Lemma eqb_refl_if {A} (x : id) (a b : A) : (if Nat.eqb x x then a else b) = a.
+Proof. rewrite Nat.eqb_refl. reflexivity. Qed.
+
+Lemma del_state s (p : id) l r : BWF s -> bkids s p = [l; r] ->
+  bsize (bdel_children s p) = bsize s
+  /\ (forall x, bpar (bdel_children s p) x = if slot_mem x [l; r] then None else bpar s x)
+  /\ (forall q, bkids (bdel_children s p) q = if Nat.eqb q p then [None; None] else bkids s q).
+Proof.
+  intros W E.
+  assert (Hl : forall c, l = Some c -> bpar s c = Some p).
+  { intros c ->. apply (bw_down s W p 0). rewrite E. reflexivity. }
+  assert (Hr : forall d, r = Some d -> bpar s d = Some p).
+  { intros d ->. apply (bw_down s W p 1). rewrite E. reflexivity. }
+  assert (Hne : forall c, l = Some c -> r = Some c -> False).
+  { intros c -> ->. assert (H := bw_once s W p 0 1 c). rewrite E in H. specialize (H eq_refl eq_refl). discriminate. }
+  unfold bdel_children. rewrite E. cbn [fold_left].
+  destruct l as [c|]; destruct r as [d|].
+  - assert (Hcd : d <> c) by (intros ->; exact (Hne c eq_refl eq_refl)).
+    destruct (orphan_explicit s c p (Hl c eq_refl)) as [S1 [P1 K1]].
+    assert (Ed : bpar (borphan s (Some c)) d = Some p).
+    { rewrite P1, upd_other by exact Hcd. exact (Hr d eq_refl). }
+    destruct (orphan_explicit _ d p Ed) as [S2 [P2 K2]].
+    split; [congruence|]. split.
+    + intros x. rewrite P2. unfold upd at 1. rewrite P1. unfold upd. cbn [slot_mem existsb].
+      destruct (Nat.eqb_spec x d); destruct (Nat.eqb_spec x c); reflexivity.
+    + intros q. rewrite K2. unfold upd at 1. rewrite !K1, upd_same, E. unfold upd.
+      destruct (Nat.eqb_spec q p) as [->|Hq]; [|reflexivity].
+      unfold clear_slot. cbn [slot_index]. rewrite !eqb_refl_if. cbn [set_nth slot_index].
+      rewrite eqb_refl_if. reflexivity.
+  - destruct (orphan_explicit s c p (Hl c eq_refl)) as [S1 [P1 K1]]. cbn [borphan].
+    split; [exact S1|]. split.
+    + intros x. rewrite P1. unfold upd. cbn [slot_mem existsb].
+      destruct (Nat.eqb_spec x c); reflexivity.
+    + intros q. rewrite K1, E. unfold upd. destruct (Nat.eqb_spec q p) as [->|Hq]; [|reflexivity].
+      unfold clear_slot. cbn [slot_index]. rewrite eqb_refl_if. reflexivity.
+  - destruct (orphan_explicit s d p (Hr d eq_refl)) as [S1 [P1 K1]]. cbn [borphan] in *.
+    split; [exact S1|]. split.
+    + intros x. rewrite P1. unfold upd. cbn [slot_mem existsb].
+      destruct (Nat.eqb_spec x d); reflexivity.
+    + intros q. rewrite K1, E. unfold upd. destruct (Nat.eqb_spec q p) as [->|Hq]; [|reflexivity].
+      unfold clear_slot. cbn [slot_index]. rewrite eqb_refl_if. reflexivity.
+  - cbn [borphan]. split; [reflexivity|]. split; [reflexivity|].
+    intros q. destruct (Nat.eqb_spec q p) as [->|Hq]; [exact E|reflexivity].
+Qed.
+
+Lemma del_relinked s (p : id) : BWF s -> p < bsize s ->
+  relinked s (bdel_children s p) p [None; None] /\ valid_news s p [None; None].
+Proof.
+  intros W Hp. split.
+  2:{ apply valid_news_local; try assumption; try reflexivity.
+      - intros i j x. rewrite slot2. destruct i as [|[|i]]; discriminate.
+      - intros x [H|[H|[]]]; discriminate. }
+  destruct (len2 _ (bw_len s W p)) as [l [r E]].
+  destruct (del_state s p l r W E) as [S [P K]].
+  apply relinked_local; try assumption.
+  - intros x [H|[H|[]]]; discriminate.
+  - intros x. rewrite P, E. cbn [slot_mem existsb]. rewrite Bool.andb_true_r. reflexivity.
+  - rewrite K, Nat.eqb_refl. reflexivity.
+  - intros q Hq. rewrite K. apply Nat.eqb_neq in Hq. rewrite Hq. reflexivity.
+Qed.
+
+Lemma del_BWF s (p : id) : BWF s -> p < bsize s -> BWF (bdel_children s p).
+Proof. intros W Hp. destruct (del_relinked s p W Hp) as [R V]. exact (relink_BWF _ _ _ _ W V R). Qed.
